@@ -45,58 +45,157 @@ theorem queued_dropPorts (w : W) (hq : ∀ p, w.ports[p]? = some .waiting → w.
     | senderError => simp at hp
     | sendErr => simp at hp
 
-theorem inv_sideEffects (c : Cfg) (w : W) (h : Inv w) (hpc : w.pc = .pre) (hnf : failed w = false) :
+theorem inv_sideEffects (c : Cfg) (w : W) (h : Inv w) (hnf : failed w = false) :
     Inv (sideEffects c w) := by
   obtain ⟨a1, a2, a3, a4, a5, a6, a7, a8, a9, a10, a11, a12, a13, a14, a15⟩ := h
   have hf : failed (sideEffects c w) = false := by simpa [sideEffects, failed] using hnf
-  constructor <;> simp only [sideEffects, hf, hpc, Pc.idx] <;> (try simp) <;> (try assumption)
+  have vac : ∀ {P : Prop}, failed (sideEffects c w) = true → P := fun h => by rw [hf] at h; cases h
+  refine ⟨a1, vac, vac, vac, vac, vac, vac, vac, vac, vac, vac, a12, a13, ?_, ?_⟩
   · intro p hp
     have := a14 p hp
     refine ⟨this.1, ?_⟩
+    simp only [sideEffects]
     split
     · exact this.2
     · exact List.mem_append_left _ this.2
-  · intro hp; simp [hp]; exact a15 hp
+  · intro hp
+    have hp' : w.portsOpen = false := hp
+    simp only [sideEffects, hp', Bool.not_false, Bool.or_true, if_true]
+    exact a15 hp'
+
+theorem inv_at_cStopping (c : Cfg) (w : W) (h : Inv w) (hpc : w.pc = .cStopping) : Inv (spawnStep c w) := by
+  obtain ⟨a1, a2, a3, a4, a5, a6, a7, a8, a9, a10, a11, a12, a13, a14, a15⟩ := h
+  simp only [spawnStep, hpc]
+  constructor <;> grind [failed, Pc.idx]
+
+theorem inv_at_cUnregPid (c : Cfg) (w : W) (h : Inv w) (hpc : w.pc = .cUnregPid) : Inv (spawnStep c w) := by
+  obtain ⟨a1, a2, a3, a4, a5, a6, a7, a8, a9, a10, a11, a12, a13, a14, a15⟩ := h
+  simp only [spawnStep, hpc]
+  constructor <;> grind [failed, Pc.idx]
+
+theorem inv_at_cUnregName (c : Cfg) (w : W) (h : Inv w) (hpc : w.pc = .cUnregName) : Inv (spawnStep c w) := by
+  obtain ⟨a1, a2, a3, a4, a5, a6, a7, a8, a9, a10, a11, a12, a13, a14, a15⟩ := h
+  simp only [spawnStep, hpc]
+  constructor <;> grind [failed, Pc.idx]
+
+theorem inv_at_cPgDemon (c : Cfg) (w : W) (h : Inv w) (hpc : w.pc = .cPgDemon) : Inv (spawnStep c w) := by
+  obtain ⟨a1, a2, a3, a4, a5, a6, a7, a8, a9, a10, a11, a12, a13, a14, a15⟩ := h
+  simp only [spawnStep, hpc]
+  constructor <;> grind [failed, Pc.idx]
+
+theorem inv_at_cPgLeave (c : Cfg) (w : W) (h : Inv w) (hpc : w.pc = .cPgLeave) : Inv (spawnStep c w) := by
+  obtain ⟨a1, a2, a3, a4, a5, a6, a7, a8, a9, a10, a11, a12, a13, a14, a15⟩ := h
+  simp only [spawnStep, hpc]
+  constructor <;> grind [failed, Pc.idx]
+
+theorem inv_at_cTerminate (c : Cfg) (w : W) (h : Inv w) (hpc : w.pc = .cTerminate) : Inv (spawnStep c w) := by
+  obtain ⟨a1, a2, a3, a4, a5, a6, a7, a8, a9, a10, a11, a12, a13, a14, a15⟩ := h
+  simp only [spawnStep, hpc]
+  constructor <;> grind [failed, Pc.idx]
+
+theorem inv_at_cTake (c : Cfg) (w : W) (h : Inv w) (hpc : w.pc = .cTake) : Inv (spawnStep c w) := by
+  obtain ⟨a1, a2, a3, a4, a5, a6, a7, a8, a9, a10, a11, a12, a13, a14, a15⟩ := h
+  simp only [spawnStep, hpc]
+  constructor <;> grind [failed, Pc.idx]
+
+theorem inv_at_cNotify (c : Cfg) (w : W) (h : Inv w) (hpc : w.pc = .cNotify) : Inv (spawnStep c w) := by
+  obtain ⟨a1, a2, a3, a4, a5, a6, a7, a8, a9, a10, a11, a12, a13, a14, a15⟩ := h
+  simp only [spawnStep, hpc]
+  constructor <;> grind [failed, Pc.idx]
+
+theorem inv_at_cTreeUnlink (c : Cfg) (w : W) (h : Inv w) (hpc : w.pc = .cTreeUnlink) : Inv (spawnStep c w) := by
+  obtain ⟨a1, a2, a3, a4, a5, a6, a7, a8, a9, a10, a11, a12, a13, a14, a15⟩ := h
+  simp only [spawnStep, hpc]
+  constructor <;> grind [failed, Pc.idx]
+
+theorem inv_at_cStopped (c : Cfg) (w : W) (h : Inv w) (hpc : w.pc = .cStopped) : Inv (spawnStep c w) := by
+  obtain ⟨a1, a2, a3, a4, a5, a6, a7, a8, a9, a10, a11, a12, a13, a14, a15⟩ := h
+  simp only [spawnStep, hpc]
+  constructor <;> grind [failed, Pc.idx]
+
+theorem inv_at_cPubStopped (c : Cfg) (w : W) (h : Inv w) (hpc : w.pc = .cPubStopped) : Inv (spawnStep c w) := by
+  obtain ⟨a1, a2, a3, a4, a5, a6, a7, a8, a9, a10, a11, a12, a13, a14, a15⟩ := h
+  simp only [spawnStep, hpc]
+  constructor <;> grind [failed, Pc.idx]
+
+theorem inv_at_cStatusNotify (c : Cfg) (w : W) (h : Inv w) (hpc : w.pc = .cStatusNotify) : Inv (spawnStep c w) := by
+  obtain ⟨a1, a2, a3, a4, a5, a6, a7, a8, a9, a10, a11, a12, a13, a14, a15⟩ := h
+  simp only [spawnStep, hpc]
+  constructor <;> grind [failed, Pc.idx]
+
+theorem inv_at_kTake (c : Cfg) (w : W) (h : Inv w) (hpc : w.pc = .kTake) : Inv (spawnStep c w) := by
+  obtain ⟨a1, a2, a3, a4, a5, a6, a7, a8, a9, a10, a11, a12, a13, a14, a15⟩ := h
+  simp only [spawnStep, hpc]
+  constructor <;> grind [failed, Pc.idx]
+
+theorem inv_at_unstarted (c : Cfg) (w : W) (h : Inv w) (hpc : w.pc = .unstarted) : Inv (spawnStep c w) := by
+  obtain ⟨a1, a2, a3, a4, a5, a6, a7, a8, a9, a10, a11, a12, a13, a14, a15⟩ := h
+  simp only [spawnStep, hpc]
+  split <;> constructor <;> grind [failed, Pc.idx]
+
+theorem inv_at_cUnlink (c : Cfg) (w : W) (h : Inv w) (hpc : w.pc = .cUnlink) : Inv (spawnStep c w) := by
+  obtain ⟨a1, a2, a3, a4, a5, a6, a7, a8, a9, a10, a11, a12, a13, a14, a15⟩ := h
+  simp only [spawnStep, hpc]
+  split <;> constructor <;> grind [failed, Pc.idx]
+
+theorem inv_at_selfLink (c : Cfg) (w : W) (h : Inv w) (hpc : w.pc = .selfLink) : Inv (spawnStep c w) := by
+  obtain ⟨a1, a2, a3, a4, a5, a6, a7, a8, a9, a10, a11, a12, a13, a14, a15⟩ := h
+  simp only [spawnStep, hpc]
+  split <;> constructor <;> grind [failed, Pc.idx]
+
+theorem inv_at_link (c : Cfg) (w : W) (h : Inv w) (hpc : w.pc = .link) : Inv (spawnStep c w) := by
+  obtain ⟨a1, a2, a3, a4, a5, a6, a7, a8, a9, a10, a11, a12, a13, a14, a15⟩ := h
+  simp only [spawnStep, hpc]
+  split <;> constructor <;> grind [failed, Pc.idx, linkRefused]
+
+theorem inv_at_pre (c : Cfg) (w : W) (h : Inv w) (hpc : w.pc = .pre) : Inv (spawnStep c w) := by
+  obtain ⟨a1, a2, a3, a4, a5, a6, a7, a8, a9, a10, a11, a12, a13, a14, a15⟩ := h
+  simp only [spawnStep, hpc]
+  cases c.outcome <;> simp only <;> (try split) <;> (try split) <;> constructor <;> grind [failed, Pc.idx]
+
+theorem inv_at_pubStarting (c : Cfg) (w : W) (h : Inv w) (hpc : w.pc = .pubStarting) : Inv (spawnStep c w) := by
+  obtain ⟨a1, a2, a3, a4, a5, a6, a7, a8, a9, a10, a11, a12, a13, a14, a15⟩ := h
+  have hnf : failed w = false := by
+    cases hf : failed w
+    · rfl
+    · have := a2 hf; simp [hpc, Pc.idx] at this
+  simp only [spawnStep, hpc]
+  split
+  · constructor <;> grind [failed, Pc.idx]
+  · apply inv_sideEffects c _ _ (by simpa [failed] using hnf)
+    cases c.selflink <;> constructor <;> grind [failed, Pc.idx]
+
+theorem inv_at_cNotifyWaiters (c : Cfg) (w : W) (h : Inv w) (hpc : w.pc = .cNotifyWaiters) : Inv (spawnStep c w) := by
+  obtain ⟨a1, a2, a3, a4, a5, a6, a7, a8, a9, a10, a11, a12, a13, a14, a15⟩ := h
+  simp only [spawnStep, hpc]
+  have hq := queued_dropPorts { w with released := w.released + w.waiting, waiting := 0, pc := .done } a14
+  constructor <;> simp only [dropPorts] at hq ⊢ <;> (try grind [failed, Pc.idx])
 
 theorem inv_spawnStep (c : Cfg) (w : W) (h : Inv w) : Inv (spawnStep c w) := by
-  have h0 := h
-  obtain ⟨a1, a2, a3, a4, a5, a6, a7, a8, a9, a10, a11, a12, a13, a14, a15⟩ := h
-  unfold spawnStep
-  cases hpc : w.pc <;> simp only
-  case init => exact h0
-  case started => exact h0
-  case done => exact h0
-  case unstarted =>
-    split <;> constructor <;> grind [failed, Pc.idx]
-  case cStopping => constructor <;> grind [failed, Pc.idx]
-  case cUnregPid => constructor <;> grind [failed, Pc.idx]
-  case cUnregName => constructor <;> grind [failed, Pc.idx]
-  case cPgDemon => constructor <;> grind [failed, Pc.idx]
-  case cPgLeave => constructor <;> grind [failed, Pc.idx]
-  case cTerminate => constructor <;> grind [failed, Pc.idx]
-  case cTake => constructor <;> grind [failed, Pc.idx]
-  case cNotify => constructor <;> grind [failed, Pc.idx]
-  case cUnlink => split <;> constructor <;> grind [failed, Pc.idx]
-  case cTreeUnlink => constructor <;> grind [failed, Pc.idx]
-  case cStopped => constructor <;> grind [failed, Pc.idx]
-  case cPubStopped => constructor <;> grind [failed, Pc.idx]
-  case cStatusNotify => constructor <;> grind [failed, Pc.idx]
-  case kTake => constructor <;> grind [failed, Pc.idx]
-  case link => split <;> constructor <;> grind [failed, Pc.idx, linkRefused]
-  case pre =>
-    cases c.outcome <;> simp only <;> (try split) <;> (try split) <;> constructor <;> grind [failed, Pc.idx]
-  case pubStarting =>
-    have hnf : failed w = false := by
-      cases hf : failed w
-      · rfl
-      · have := a2 hf; simp [hpc, Pc.idx] at this
-    split
-    · constructor <;> grind [failed, Pc.idx]
-    · apply inv_sideEffects c _ _ rfl (by simpa [failed] using hnf)
-      constructor <;> grind [failed, Pc.idx]
-  case cNotifyWaiters =>
-    have hq := queued_dropPorts { w with released := w.released + w.waiting, waiting := 0, pc := .done } a14
-    constructor <;> simp only [dropPorts] at hq ⊢ <;> (try grind [failed, Pc.idx])
+  cases hpc : w.pc
+  case init => simp only [spawnStep, hpc]; exact h
+  case started => simp only [spawnStep, hpc]; exact h
+  case done => simp only [spawnStep, hpc]; exact h
+  case cStopping => exact inv_at_cStopping c w h hpc
+  case cUnregPid => exact inv_at_cUnregPid c w h hpc
+  case cUnregName => exact inv_at_cUnregName c w h hpc
+  case cPgDemon => exact inv_at_cPgDemon c w h hpc
+  case cPgLeave => exact inv_at_cPgLeave c w h hpc
+  case cTerminate => exact inv_at_cTerminate c w h hpc
+  case cTake => exact inv_at_cTake c w h hpc
+  case cNotify => exact inv_at_cNotify c w h hpc
+  case cTreeUnlink => exact inv_at_cTreeUnlink c w h hpc
+  case cStopped => exact inv_at_cStopped c w h hpc
+  case cPubStopped => exact inv_at_cPubStopped c w h hpc
+  case cStatusNotify => exact inv_at_cStatusNotify c w h hpc
+  case kTake => exact inv_at_kTake c w h hpc
+  case unstarted => exact inv_at_unstarted c w h hpc
+  case cUnlink => exact inv_at_cUnlink c w h hpc
+  case selfLink => exact inv_at_selfLink c w h hpc
+  case link => exact inv_at_link c w h hpc
+  case pre => exact inv_at_pre c w h hpc
+  case pubStarting => exact inv_at_pubStarting c w h hpc
+  case cNotifyWaiters => exact inv_at_cNotifyWaiters c w h hpc
 
 theorem inv_step (c : Cfg) (w : W) (op : Op) (h : Inv w) : Inv (step c w op) := by
   cases op with
@@ -173,7 +272,7 @@ theorem inv_step (c : Cfg) (w : W) (op : Op) (h : Inv w) : Inv (step c w op) := 
   | supSet st =>
     obtain ⟨a1, a2, a3, a4, a5, a6, a7, a8, a9, a10, a11, a12, a13, a14, a15⟩ := h
     simp only [step]
-    constructor <;> assumption
+    split <;> constructor <;> grind [failed, Pc.idx]
 
 theorem inv_run (c : Cfg) (ops : List Op) : ∀ w : W, Inv w → Inv (ops.foldl (step c) w) := by
   induction ops with
